@@ -10,6 +10,8 @@ non-negative), and leaves its inputs unchanged").
             count exceeds the old one), the digits brought into use are cleared under that same test: digits at and beyond
             the count are unspecified
   CONST-IN  no function of the module stores through a parameter it declares const
+  ALIAS-RW  no field of an input integer is read in a later statement than a write of that field of an output integer
+            ("also when the output object is one of the inputs"); see sa/py/relic_sa/alias.py
 """
 import re
 
@@ -18,6 +20,7 @@ from ..engines import Facts, key
 from ..facts import AnalysisBroken
 from .c03 import c05_line
 from . import c02
+from .. import alias
 
 EXPLANATION = (
     "Static decision of the representation clauses of C01 over every function of src/bn (public operations and static "
@@ -47,6 +50,13 @@ NF_BY_CONSTRUCTION = {
 }
 # NF-SIGN is decided in the files the property is anchored in
 SIGN_SCOPE = re.compile(r"^src/bn/relic_bn_(add|mul|sqr|div|shift|cmp|util|mem)\.c$")
+# reads of an input after a write of the output that are harmless, one reason each:
+# (function, output, input, field, reading callee) -> reason
+ALIAS_OK = {
+    ("bn_add_imp", "c", "a", "dp", "bn_add1_low"): "disjoint digit ranges: the first call wrote [0,min), this one reads [min,max) of the same positions it writes",
+    ("bn_sub_imp", "c", "a", "dp", "bn_sub1_low"): "disjoint digit ranges, as in bn_add_imp",
+    ("bn_lsh", "c", "a", "used", "dv_copy"): "only reached with digits == 0, where the store c->used = a->used + digits kept the value",
+}
 # functions taking an integer as first argument without giving it a (new) value
 NOT_WRITERS = re.compile(r"^bn_(grow|trim|is_\w+|cmp\w*|sign|bits|get_\w+|ham|size_\w+|write_\w+|print|null|new\w*|free|clean|make)$")
 
@@ -75,8 +85,13 @@ def analyse(ctx, prog, chk):
     chk.used_program(prog)
     n, nwrites = rule_nf_split(ctx, prog, chk)
     gc = rule_grow_clear(ctx, prog, chk)
+    na, used = alias.rule(ctx, prog, chk, lambda fn: bool(SIGN_SCOPE.match(fn.rfile)), ALIAS_OK)
+    if prog.config == "BASE" and not getattr(prog, "library", None):
+        stale = set(ALIAS_OK) - used
+        if stale:
+            raise AnalysisBroken("ALIAS-RW: reviewed exception(s) %s no longer match any site" % sorted(stale))
     c = c02.rule_const_in(ctx, prog, chk, prefix=("src/bn/", "src/low/easy/relic_bn"))
-    return {"nf": n, "writes": nwrites, "const": c, "grow": gc}
+    return {"nf": n, "writes": nwrites, "const": c, "grow": gc, "alias": na}
 
 
 def rule_nf_split(ctx, prog, chk):
@@ -280,3 +295,4 @@ def run(ctx, chk):
     chk.floor("NF", "integer parameters with raw or sign stores", c["writes"], 30)
     chk.floor("CONST-IN", "const pointer parameters of the module", c["const"], 150)
     chk.floor("GROW-CLEAR", "growth stores of the digit count", c["grow"], 1)
+    chk.floor("ALIAS-RW", "output/input pairs of the same handle type", c["alias"], 40)
